@@ -80,6 +80,15 @@ func forInputs(c *Ctx, p *Parser, nWell, nMut, nRaw int, f func(input []byte, ex
 // (-1 when the input is not known to start with one).
 func forInputsW(c *Ctx, p *Parser, nWell, nMut, nRaw int, f func(input []byte, extra [][]byte, kind string, wlen int)) {
 	r := c.R
+	// systematic inputs: input classes that random generation reaches too rarely
+	for _, w := range systematicInputs(p, r) {
+		var extra [][]byte
+		if p.Extra != nil {
+			extra = p.Extra(r)
+		}
+		f(w, extra, "systematic", -1)
+		f(cat(w, r.Bytes(1+r.Intn(8))), extra, "systematic", -1)
+	}
 	for i := 0; i < nWell; i++ {
 		w := p.Gen(r)
 		var extra [][]byte
@@ -116,6 +125,211 @@ func forInputsW(c *Ctx, p *Parser, nWell, nMut, nRaw int, f func(input []byte, e
 		}
 		f(b, extra, "raw", -1)
 	}
+}
+
+// systematicInputs enumerates, per parser, classes of unusual-but-legal (or near-legal) inputs:
+//   - identities: EVERY pair of known signing/crypto type codes (supported or not) plus unknown
+//     codes, with and without excess key-certificate payload;
+//   - mappings: every declared size 0..8 with that many (and fewer, and more) bytes following;
+//   - RouterInfo: a non-zero peer_size followed by that many 32-byte hashes (the
+//     specification's layout) before the options.
+func systematicInputs(p *Parser, r *Rng) [][]byte {
+	var out [][]byte
+	switch p.Name {
+	case "ReadKeysAndCert", "ReadDestination", "ReadRouterIdentity", "ReadKeysAndCertElgAndEd25519", "ReadKeysAndCertX25519AndEd25519":
+		for _, s := range []int{0, 1, 2, 3, 4, 5, 6, 7, 8, 9, 11, 12, 65280} {
+			for _, cr := range []int{0, 1, 2, 3, 4, 5, 6, 7, 8, 65280} {
+				id := genIdentTypes(r, s, cr, false)
+				out = append(out, id.Encode())
+			}
+		}
+	case "ReadMapping":
+		for size := 0; size <= 8; size++ {
+			for _, have := range []int{size, size - 1, size + 3} {
+				if have < 0 {
+					continue
+				}
+				out = append(out, cat(u16(size), r.Bytes(have)))
+			}
+			// a syntactically plausible body of exactly that size
+			body := []byte{1, 'k', '=', 1, 'v', ';', 0, '='}
+			out = append(out, cat(u16(size), body[:size]))
+		}
+	case "ReadRouterInfo":
+		for n := 1; n <= 2; n++ {
+			ri := genRouterInfo(r)
+			ri.PeerSize, ri.PeerHashes = n, r.Bytes(32*n)
+			out = append(out, ri.Encode())
+		}
+		// every small combination of address count, peer count and option count
+		for na := 0; na <= 3; na++ {
+			for np := 0; np <= 1; np++ {
+				for no := 0; no <= 2; no++ {
+					ri := genRouterInfo(r)
+					ri.Addrs = nil
+					for i := 0; i < na; i++ {
+						ri.Addrs = append(ri.Addrs, genRouterAddr(r))
+					}
+					ri.PeerSize, ri.PeerHashes = np, r.Bytes(32*np)
+					ri.Opts = sysKVs(r, no)
+					out = append(out, ri.Encode())
+				}
+			}
+		}
+	case "ReadRouterAddress":
+		for _, size := range []int{1, 2, 3, 4, 5} {
+			out = append(out, cat([]byte{5}, make([]byte, 8), []byte{1, 'x'}, u16(size), r.Bytes(size)))
+		}
+		// every style length 0..8 and 255, every option count 0..3, zero and non-zero date
+		for _, sl := range []int{0, 1, 2, 3, 4, 5, 6, 7, 8, 255} {
+			for no := 0; no <= 3; no++ {
+				a := RouterAddrV{Cost: r.Intn(256), Style: r.Bytes(sl), Opts: sysKVs(r, no)}
+				if (sl+no)%2 == 1 {
+					a.Date = r.U64()
+				}
+				out = append(out, a.Encode())
+			}
+		}
+	case "ReadLeaseSet":
+		// every lease count 0..3 and 15..17 for every supported signing type
+		for _, s := range libSigSupported {
+			for _, n := range []int{0, 1, 2, 3, 15, 16, 17} {
+				ls := genLeaseSet(r)
+				ls.Dest = genIdentTypes(r, s, 0, false)
+				ls.Spk = r.Bytes(specSigPubLen[s])
+				ls.Sig = r.Bytes(specSigLen[s])
+				ls.Leases = nil
+				for i := 0; i < n; i++ {
+					ls.Leases = append(ls.Leases, genLease(r))
+				}
+				out = append(out, ls.Encode())
+			}
+		}
+	case "ReadLeaseSet2":
+		// offline block absent/present x option count 0..2 x key count 0..3 x lease count 0..2 (and the limits)
+		for off := 0; off <= 1; off++ {
+			for no := 0; no <= 2; no++ {
+				for _, nk := range []int{0, 1, 2, 3, 16, 17} {
+					for _, nl := range []int{0, 1, 2, 16, 17} {
+						l := LeaseSet2V{H: sysHeader(r, off == 1, no)}
+						for i := 0; i < nk; i++ {
+							l.Keys = append(l.Keys, genEncKey(r))
+						}
+						for i := 0; i < nl; i++ {
+							l.Leases = append(l.Leases, genLease2(r))
+						}
+						l.Sig = r.Bytes(l.H.FinalSigLen())
+						out = append(out, l.Encode())
+					}
+				}
+			}
+		}
+		// every known encryption key type with its own length, one shorter and one longer
+		for _, t := range []int{0, 1, 2, 3, 4, 5, 6, 7, 8, 255, 65280} {
+			n, ok := specCryptoLen[t]
+			if !ok {
+				n = 16
+			}
+			for _, d := range []int{-1, 0, 1} {
+				l := LeaseSet2V{H: sysHeader(r, false, 0), Keys: []EncKey{{t, r.Bytes(n + d)}}, Leases: [][]byte{genLease2(r)}}
+				l.Sig = r.Bytes(l.H.FinalSigLen())
+				out = append(out, l.Encode())
+			}
+		}
+	case "ReadMetaLeaseSet":
+		for off := 0; off <= 1; off++ {
+			for no := 0; no <= 2; no++ {
+				for _, ne := range []int{0, 1, 2, 3, 16, 17} {
+					for np := 0; np <= 2; np++ {
+						m := MetaLeaseSetV{H: sysHeader(r, off == 1, no)}
+						for i := 0; i < ne; i++ {
+							m.Entries = append(m.Entries, MetaEntry{r.Bytes(32), []int{0, 1, 3, 5, 7, 255}[(i+np)%6], uint32(r.U64()), r.Intn(256), sysKVs(r, np)})
+						}
+						m.Sig = r.Bytes(m.H.FinalSigLen())
+						out = append(out, m.Encode())
+					}
+				}
+			}
+		}
+	case "ReadEncryptedLeaseSet":
+		// every known blinded-key type x offline block absent / present with every transient type
+		// x inner length at and around the minimum
+		for _, bt := range []int{0, 1, 2, 3, 4, 5, 6, 7, 8, 11} {
+			for _, tt := range []int{-1, 0, 1, 2, 3, 4, 5, 6, 7, 8, 11} {
+				for _, il := range []int{60, 61, 62} {
+					e := EncLSV{SigType: bt, Key: r.Bytes(specSigPubLen[bt]), Published: uint32(r.U64()), Expires: 1 + uint16(r.U64()%65535), Inner: r.Bytes(il)}
+					fl := specSigLen[bt]
+					if tt >= 0 {
+						e.Offline = &Offline{Expires: 4000000000, SigType: tt, Key: r.Bytes(specSigPubLen[tt]), Sig: r.Bytes(specSigLen[bt])}
+						e.Flags = 1
+						fl = specSigLen[tt]
+					}
+					e.Sig = r.Bytes(fl)
+					out = append(out, e.Encode())
+				}
+			}
+		}
+	case "ReadOfflineSignature":
+		// every transient type, known or not, with the key length the tables give it
+		for _, tt := range []int{0, 1, 2, 3, 4, 5, 6, 7, 8, 9, 10, 11, 12, 65280} {
+			kl, ok := specSigPubLen[tt]
+			if !ok {
+				kl = 32
+			}
+			for _, exp := range []uint32{0, 1, 0x7fffffff, 0x80000000, 0xffffffff} {
+				out = append(out, cat(u32(exp), u16(tt), r.Bytes(kl), r.Bytes(132)))
+			}
+		}
+	case "ReadCertificate":
+		// every type 0..7 and 255 with every declared length 0..8, that many (and one fewer) bytes
+		for _, t := range []int{0, 1, 2, 3, 4, 5, 6, 7, 255} {
+			for n := 0; n <= 8; n++ {
+				out = append(out, cat([]byte{byte(t)}, u16(n), r.Bytes(n)))
+				if n > 0 {
+					out = append(out, cat([]byte{byte(t)}, u16(n), r.Bytes(n-1)))
+				}
+			}
+		}
+	case "NewKeyCertificate":
+		for _, sg := range []int{0, 1, 2, 3, 4, 5, 6, 7, 8, 9, 11, 12, 65280} {
+			for _, cr := range []int{0, 1, 2, 3, 4, 5, 6, 7, 8, 65280} {
+				for _, extra := range []int{0, 1, 9} {
+					out = append(out, cat([]byte{5}, u16(4+extra), u16(sg), u16(cr), r.Bytes(extra)))
+				}
+			}
+		}
+		for n := 0; n <= 4; n++ { // payload shorter than the two type fields
+			out = append(out, cat([]byte{5}, u16(n), r.Bytes(n)))
+		}
+	case "ReadI2PString":
+		for _, n := range []int{0, 1, 2, 127, 128, 254, 255} {
+			out = append(out, cat([]byte{byte(n)}, r.Bytes(n)))
+			if n > 0 {
+				out = append(out, cat([]byte{byte(n)}, r.Bytes(n-1)))
+			}
+		}
+	}
+	return out
+}
+
+// sysKVs: n distinct short pairs in arbitrary wire order
+func sysKVs(r *Rng, n int) []KV {
+	var kvs []KV
+	for i := 0; i < n; i++ {
+		kvs = append(kvs, KV{[]byte{byte('a' + (7*i+n)%26), byte('0' + i)}, r.Bytes(r.Intn(3))})
+	}
+	return kvs
+}
+
+// sysHeader: a LeaseSet2-family header with the given offline block presence and option count
+func sysHeader(r *Rng, off bool, nOpts int) LS2Header {
+	h := LS2Header{Dest: genDestIdent(r), Published: uint32(r.U64() >> 33), Expires: uint16(r.U64()), Options: sysKVs(r, nOpts)}
+	if off {
+		o := genOffline(r, h.Dest.SigType)
+		h.Offline = &o
+		h.Flags = 1
+	}
+	return h
 }
 
 func runC01(c *Ctx) {
